@@ -274,11 +274,16 @@ def run_table_unary(chk, spec):
 	"""-t, +t, abs(t): the unary operation applied column by column - same shape, every result column what the bare column gives, names kept"""
 	import operator, warnings
 	n = spec["n"]
-	cols = {"k": [(-1) ** i * (i + 1) for i in range(n)], "x": [(-1) ** (i + 1) * (i + 0.5) for i in range(n)], "z": [complex(i, -i) for i in range(n)], "b": [i % 2 == 0 for i in range(n)]}
+	from decimal import Decimal
+	from fractions import Fraction
+	cols = {"k": [(-1) ** i * (i + 1) for i in range(n)], "x": [(-1) ** (i + 1) * (i + 0.5) for i in range(n)], "z": [complex(i, -i) for i in range(n)], "b": [i % 2 == 0 for i in range(n)],
+		"dec": [Decimal(i) - Decimal("1.5") for i in range(n)], "frac": [Fraction(i, 3) - 1 for i in range(n)], "td": [timedelta(days=i - 1, hours=3) for i in range(n)], "obj": [(-1) ** i * (i + 2) for i in range(n)]}
 	if spec["none"] and n > 1:
 		cols["k"][1] = None
 	use = list(spec["use"])
 	t = Table({c: list(cols[c]) for c in use})
+	if "obj" in use:
+		t.obj = t.obj.to_object()       # ints in a column that is typed <object>: the cells still negate
 	op = {"neg": operator.neg, "pos": operator.pos, "abs": operator.abs}[spec["opname"]]
 	with warnings.catch_warnings():
 		warnings.simplefilter("ignore")
@@ -872,7 +877,7 @@ def run(chk):
 					chk.case("row_method", {"kind": kind, "method": method, "via": via, "i": i}, "row-method")
 	for fmts, args in ((["%s!", "%05.1f", None, "id-%d"], ["a", 2.5, "x", 7]), (["%s %s", "%s-%s"], [(1, 2), (3, 4)]), (["%s-%s-%s", "%d%d%d"], [1, 2, 3]), (["%s", "%s"], ["a", "b"]), (["%s"], ["a", "b"]), (["%d", "%d", "%d"], [1, 2]), (["%(k)s"], [{"k": 1}]), (["x", "y"], [(), ()])):
 		chk.case("str_format_sequence", {"fmts": fmts, "args": args}, "str-format-sequence")
-	for use in (["k"], ["k", "x"], ["x", "k", "z"], ["k", "b"], ["k", "k" if False else "x", "z", "b"]):
+	for use in (["k"], ["k", "x"], ["x", "k", "z"], ["k", "b"], ["k", "k" if False else "x", "z", "b"], ["k", "dec"], ["frac", "k"], ["td", "x"], ["k", "obj"], ["dec", "frac", "td", "obj"]):
 		for opname in ("neg", "pos", "abs"):
 			for n in (1, 2, 3, 5):
 				for none in (False, True):
